@@ -37,6 +37,19 @@ def run(ctx):
         batch = [L.gen_case(ctx.rng) for _ in range(48)]
         L.evaluate(ctx, PID, batch, stats)
         done += sum(len(c["history"]) for c in batch)
+    if ctx.tier == "thorough":
+        # exhaustive: all 4096 graphs over 3 names x 2 versions of lib_setup.small_graphs
+        batch = []
+        for c in L.small_graphs():
+            batch.append(c)
+            if len(batch) == 256:
+                if ctx.out_of_time():
+                    ctx.note("exhaustive enumeration cut short by the time budget")
+                    break
+                L.evaluate(ctx, PID, batch, stats)
+                batch = []
+        if batch and not ctx.out_of_time():
+            L.evaluate(ctx, PID, batch, stats)
     for k, v in sorted(stats.items()):
         ctx.hist("stat_" + k, v)
     ok = stats.get("ok", 0)
